@@ -40,6 +40,9 @@ type Recorder struct {
 	// RejectSource, when set, makes creates/updates of the sources it names fail (one rule set that cannot be applied,
 	// e.g. because it conflicts with a rule set of another provider) while the others are accepted.
 	RejectSource func(source string) bool
+	// ConflictOnEqualContent: a create/update is refused while another source has the very same content active (the
+	// repository refuses path expressions owned by another rule set - e.g. a file copied or moved to a new name)
+	ConflictOnEqualContent bool
 	// TolerateUpdateOfAbsent: the Kubernetes informer delivers updates for objects whose creation was rejected.
 	TolerateUpdateOfAbsent bool
 	Calls                  int
@@ -67,7 +70,7 @@ func (p *Recorder) OnCreated(rs *rconfig.RuleSet) error {
 	if len(rs.Rules) == 0 {
 		p.run.Fail("empty-rule-set-loaded", p.provider, "OnCreated with an empty rule set for %s", short(rs.Source))
 	}
-	if p.Rejecting || (p.RejectSource != nil && p.RejectSource(rs.Source)) {
+	if p.Rejecting || (p.RejectSource != nil && p.RejectSource(rs.Source)) || p.conflicts(rs.Source, id) {
 		return ErrRejected
 	}
 	p.active[rs.Source] = id
@@ -90,11 +93,23 @@ func (p *Recorder) OnUpdated(rs *rconfig.RuleSet) error {
 	if ok && cur == id {
 		p.run.Fail("unchanged-content-reloaded", p.provider, "OnUpdated for %s with content %s that is already active: unchanged content triggered a reload", short(rs.Source), id)
 	}
-	if p.Rejecting || (p.RejectSource != nil && p.RejectSource(rs.Source)) {
+	if p.Rejecting || (p.RejectSource != nil && p.RejectSource(rs.Source)) || p.conflicts(rs.Source, id) {
 		return ErrRejected
 	}
 	p.active[rs.Source] = id
 	return nil
+}
+
+func (p *Recorder) conflicts(source, id string) bool {
+	if !p.ConflictOnEqualContent {
+		return false
+	}
+	for src, cur := range p.active {
+		if src != source && cur == id {
+			return true
+		}
+	}
+	return false
 }
 
 func (p *Recorder) OnDeleted(rs *rconfig.RuleSet) error {
